@@ -7,7 +7,7 @@ from vp.oracles import c07_delay as od
 
 ID = "C07"
 LEVEL = "exploration"
-RULE = ("Seven case modes. basis: fshift applied to the complete impulse basis eye(n) (for even n and a fractional "
+RULE = ("Six case modes. basis: fshift applied to the complete impulse basis eye(n) (for even n and a fractional "
         "shift: to the basis of the Nyquist-free subspace eye(n) - (-1)^(t+u)/n), along axis 0 or 1, float32/float64, "
         "C/F layout, time domain or already-rfft'd input with ns; operations = scalar shift (Python int/float, NumPy "
         "float64/float32/int64/int32 scalars), composition of two shifts, per-trace shift vector (palette of values "
@@ -25,7 +25,8 @@ RULE = ("Seven case modes. basis: fshift applied to the complete impulse basis e
         "dtype preserved and real input bit-identical to a copy; estimated delay within 0.05 sample of the applied one "
         "and re-aligned copy within 0.05 * max slope of the original; parabola vertex recovered; every generated model "
         "trace is an exactly delayed scaled copy of the spike and the model is equivariant to permuting the traces. "
-        "Tolerances: 1e-12 (float64) and 2e-5 (float32) absolute on unit-amplitude inputs, doubled for compositions. "
+        "Tolerances, absolute on unit-amplitude inputs: 1e-12 + 4e-15*|shift| (float64; the second term is the double "
+        "rounding of a phase of pi*|shift| rad) and 2e-5 (float32), summed over the two shifts of a composition. "
         "Non-trivial = a non-integer shift, or per-trace shifts, or prime n (parabola: non-integer interior vertex). "
         "Distinct = distinct case hash.")
 EXHAUSTIVE_NOTE = ("all lengths n <= 256 (quick) / n <= 2048 (thorough) x axis {0,1} x dtype {f4,f8} on the full impulse "
@@ -364,8 +365,9 @@ class _Shifter:
                 return None
             _untouched(ctx, x, x0, what)
             if isinstance(s, np.ndarray):
-                ctx.check(np.array_equal(s, s0) and s.shape == s0.shape, "C07.input_mutated",
-                          lambda: f"{what}: the shift array was modified")
+                # callers hand in the same header array (h["sample_shift"]) for every chunk
+                ctx.check(np.array_equal(s, s0) and s.shape == s0.shape, "C07.shift_array_mutated",
+                          lambda: f"{what}: the per-trace shift array was modified")
             if not ctx.check(isinstance(y, np.ndarray) and y.shape == x.shape and y.dtype == x.dtype, "C07.shape_dtype",
                              lambda: f"{what}: input {x.shape} {x.dtype} -> output {getattr(y, 'shape', None)} "
                                      f"{getattr(y, 'dtype', type(y))}"):
